@@ -4,12 +4,16 @@
    back/vmexec.c by the same check), computes what the reference evaluator (Src/Eval.v) computes.
    Only statements here; every proof is `exact <lemma>` into Src/CompileCorrect*.v.
 
-   Fragment F1 (`in_F1 scope e = true`, `func_in_F1 fd = true`, Src/Compile.v): int/bool
-   expressions over parameters and let/var names — literals, names, unary - and !, the binary
-   operators + - * / % < <= > >= == != &&& ||| ^^^ <<< >>> (not && ||), ?: / if-else, assignment
-   to a name, blocks of let / var / expression items ending with an expression; literals fit 32
-   bits, no operator has only literal operands (front/constred.c would fold it), shift counts are
-   literals 0..31, names are in scope; functions without catch clauses. *)
+   Fragments (boolean predicates of Src/Compile.v; `in_F lv scope e`, `func_in_F lv fd`):
+   F1 = level 1: int/bool expressions over parameters and let/var names — literals, names, unary -
+        and !, the binary operators + - * / % < <= > >= == != &&& ||| ^^^ <<< >>>, ?: / if-else,
+        assignment to a name, blocks of let / var / expression items ending with an expression;
+        literals fit 32 bits, no operator has only literal operands (front/constred.c would fold
+        it), shift counts are literals 0..31, names are in scope; functions without catch clauses.
+   F2 = level 2: F1 + && || (short-circuit jumps) + while / do-while / for (let/var inside loop
+        bodies: per-iteration SLIDE) + print(e).  The call of the stdlib function `print`
+        (MARK … CALL, callee FUNC_DEF; ID_LOCAL; BUILD_IN print; RET) is ONE abstract step of the
+        VM model at the CALL instruction (VM/ValueVM.v says how). *)
 From Coq Require Import ZArith List Bool.
 From NV Require Import Gen.Opcodes Verifier.Effect Src.Syntax Src.Eval Src.EvalLemmas
   VM.ValueVM Src.Compile Src.CompileCorrectBase Src.CompileCorrect.
@@ -18,8 +22,8 @@ Local Open Scope Z_scope.
 
 (* ---- expressions: code embedded at any offset of any program, any related states ----------- *)
 
-Theorem compile_expr_correct : forall genv fuel e env st r st' sc,
-  eval genv fuel env st e = (r, st') -> in_F1 sc e = true ->
+Theorem compile_expr_correct : forall genv lv fuel e env st r st' sc,
+  eval genv fuel env st e = (r, st') -> in_F lv sc e = true ->
   forall prog pc L ce s m,
     code_at prog pc (compile_expr L ce e) -> v_ip s = pc ->
     MS m st (v_heap s) -> v_out s = out st -> env_match m env ce sc L (v_stk s) ->
@@ -37,10 +41,22 @@ Theorem compile_expr_correct : forall genv fuel e env st r st' sc,
 Proof. exact CompileCorrect.compile_expr_correct. Qed.
 Print Assumptions compile_expr_correct.
 
+Theorem compile_expr_correct_F1 : forall genv fuel e env st c st' sc,
+  eval genv fuel env st e = (ROk c, st') -> in_F1 sc e = true ->
+  forall prog pc L ce s m,
+    code_at prog pc (compile_expr L ce e) -> v_ip s = pc ->
+    MS m st (v_heap s) -> v_out s = out st -> env_match m env ce sc L (v_stk s) ->
+    exists s' m' a, star prog s s' /\ v_ip s' = (pc + length (compile_expr L ce e))%nat /\
+      v_stk s' = a :: v_stk s /\ nth_error m' c = Some (Some a) /\
+      MS m' st' (v_heap s') /\ ext m m' /\ v_out s' = out st'.
+Proof. exact (fun genv fuel e env st c st' sc He HF =>
+                CompileCorrect.compile_expr_correct genv 1 fuel e env st (ROk c) st' sc He HF). Qed.
+Print Assumptions compile_expr_correct_F1.
+
 (* ---- a function body, from its entry (FUNC_DEF) to RET ---------------------------------------- *)
 
-Theorem compile_func_correct_F1 : forall genv fuel fd cs penv st r st' prog entry m stk h,
-  func_in_F1 fd = true ->
+Theorem compile_func_correct_F : forall genv lv fuel fd cs penv st r st' prog entry m stk h,
+  func_in_F lv fd = true ->
   bind_params (fd_params fd) cs = Some penv ->
   eval_items genv fuel penv st (fd_body fd) None = (r, st') ->
   code_at prog entry (compile_func fd) ->
@@ -56,10 +72,11 @@ Theorem compile_func_correct_F1 : forall genv fuel fd cs penv st r st' prog entr
                v_out s' = out st'
   | _ => True
   end.
-Proof. exact CompileCorrect.compile_func_correct_F1. Qed.
-Print Assumptions compile_func_correct_F1.
+Proof. exact CompileCorrect.compile_func_correct_F. Qed.
+Print Assumptions compile_func_correct_F.
 
-(* ---- whole programs of one function: run_vm (compile p) = observe (run_program p) ------------- *)
+(* ---- whole programs of one function: run_vm (compile p) = observe (run_program p) -------------
+   result payload, printed numbers and the unhandled exception agree *)
 
 Theorem compile_program_correct_F1 : forall fuel fd args,
   func_in_F1 fd = true ->
@@ -70,10 +87,22 @@ Theorem compile_program_correct_F1 : forall fuel fd args,
       exists k, run_func (compile_func fd) 0 k args = VExc ex printed
   | OFuel | OStuck => True
   end.
-Proof. exact CompileCorrect.compile_program_correct_F1. Qed.
+Proof. exact (CompileCorrect.compile_program_correct_F 1). Qed.
 Print Assumptions compile_program_correct_F1.
 
-(* ---- the hypotheses are satisfiable: a concrete program of the fragment ------------------------
+Theorem compile_program_correct_F2 : forall fuel fd args,
+  func_in_F2 fd = true ->
+  match run_program fuel (single fd) args with
+  | OResult v printed =>
+      exists k z, run_func (compile_func fd) 0 k args = VRet z printed /\ val_rel v z
+  | OUnhandled ex printed =>
+      exists k, run_func (compile_func fd) 0 k args = VExc ex printed
+  | OFuel | OStuck => True
+  end.
+Proof. exact (CompileCorrect.compile_program_correct_F 2). Qed.
+Print Assumptions compile_program_correct_F2.
+
+(* ---- the hypotheses are satisfiable: concrete programs of the fragments ------------------------
    func main(v1 : int, var v2 : int) -> int
    { let v3 = v1 + 1;  var v4 = v2;                       (v4 aliases the cell of v2)
      v4 = (v2 / v1) * 2;
@@ -101,4 +130,38 @@ Proof. vm_compute. split; reflexivity. Qed.
 Example ex_raises :
   run_func (compile_func ex_fd) 0 200 [0; 5] = VExc ExDivision [] /\
   run_program 50 (single ex_fd) [0; 5] = OUnhandled ExDivision [].
+Proof. vm_compute. split; reflexivity. Qed.
+
+(* func main(v1 : int) -> int
+   { var v2 = 0;  var v3 = 1;
+     while (v2 < v1 && v3 != 0) { let v4 = v3 * 2; print(v4); v3 = v4; v2 = v2 + 1 };
+     for (v2 = 0; v2 < 2 || v3 < 0; v2 = v2 + 1) { v3 = v3 - v2 };
+     do { v3 = v3 / v2 } while (print(v3) > 100);
+     v3 } *)
+Definition ex2_fd : fdef := FDef 0%N [(1%N, false, TInt)] TInt
+  [ IVar 2%N (EInt 0);
+    IVar 3%N (EInt 1);
+    IExpr (EWhile (EBin And (EBin Lt (EVar 2%N) (EVar 1%N)) (EBin Ne (EVar 3%N) (EInt 0)))
+             (EBlock [ILet 4%N (EBin Mul (EVar 3%N) (EInt 2));
+                      IExpr (EPrint (EVar 4%N));
+                      IExpr (EAssign (EVar 3%N) (EVar 4%N));
+                      IExpr (EAssign (EVar 2%N) (EBin Add (EVar 2%N) (EInt 1)))]));
+    IExpr (EFor (EAssign (EVar 2%N) (EInt 0))
+                (EBin Or (EBin Lt (EVar 2%N) (EInt 2)) (EBin Lt (EVar 3%N) (EInt 0)))
+                (EAssign (EVar 2%N) (EBin Add (EVar 2%N) (EInt 1)))
+                (EBlock [IExpr (EAssign (EVar 3%N) (EBin Sub (EVar 3%N) (EVar 2%N)))]));
+    IExpr (EDoWhile (EBlock [IExpr (EAssign (EVar 3%N) (EBin Div (EVar 3%N) (EVar 2%N)))])
+                    (EBin Gt (EPrint (EVar 3%N)) (EInt 100)));
+    IExpr (EVar 3%N) ] [] None.
+
+Example ex2_in_F2 : func_in_F2 ex2_fd = true /\ func_in_F1 ex2_fd = false.
+Proof. vm_compute. split; reflexivity. Qed.
+
+(* 110 instructions; on 10: the while loop prints 2 … 1024, the for loop leaves v3 = 1023, v2 = 2,
+   the do-while prints 511 255 127 63; both sides agree on result and printed numbers *)
+Example ex2_runs :
+  run_func (compile_func ex2_fd) 0 2000 [10]
+    = VRet 63 [2; 4; 8; 16; 32; 64; 128; 256; 512; 1024; 511; 255; 127; 63] /\
+  run_program 200 (single ex2_fd) [10]
+    = OResult (CInt 63) [2; 4; 8; 16; 32; 64; 128; 256; 512; 1024; 511; 255; 127; 63].
 Proof. vm_compute. split; reflexivity. Qed.
